@@ -11,8 +11,11 @@
 #include <crab/config.h>
 
 #include <crab/domains/abstract_domain_operators.hpp>
+#include <crab/numbers/bignums.hpp>
 #include <crab/support/debug.hpp>
 #include <crab/support/stats.hpp>
+
+#include <type_traits>
 
 namespace crab {
 namespace domains {
@@ -42,7 +45,7 @@ public:
    *    x = y + k <--> y = x - k
    *    x = y - k <--> y = x + k
    *    x = y * k <--> y = x / k  if (k != 0)
-   *    x = y / k <--> y = x * k  if (k != 0)
+   *    x = y / k <--> y = x * k  if (k != 0) and the division is exact (rationals)
    *
    *  Fallback case:
    *   forget(x)
@@ -112,7 +115,10 @@ public:
       }
       break;
     case OP_SDIV:
-      if (k != 0) {
+      // x = y / k is invertible only over the rationals. Over the
+      // integers the division truncates, so y = x * k is just one of
+      // the |k| pre-images of x and we can only forget x.
+      if (k != 0 && std::is_same<number_t, ikos::q_number>::value) {
         dom.apply(OP_MULTIPLICATION, y, x, k);
         if (!(x == y)) {
           dom -= x;
